@@ -140,6 +140,7 @@ def run(ctx):
     rebind_order(ctx)
     inference_programs(ctx)
     noncopy_programs(ctx)
+    param_programs(ctx)
     from .. import macrolint, facts as _facts
     macrolint.hygiene_rule(ctx, ["opt_unwrap", "opt_unwrap_or", "opt_unwrap_or_else", "opt_ok_or", "opt_ok_or_else", "opt_map", "opt_and_then",
                                  "opt_or_else", "opt_flatten", "opt_filter", "res_unwrap_or", "res_unwrap_or_else", "res_unwrap_err_or_else",
@@ -203,6 +204,45 @@ def inference_programs(ctx):
             ctx.violation("ACC-INFER", n, "a valid program is rejected: `%s`: %s" % (src, "; ".join(e["message"][:120] for e in r["errors"][:2])), detail={"program": src})
         ctx.instance("ACC-INFER", n, sample={"program": src, "accepted": r["ok"]})
     ctx.floor("ACC-INFER", len(INFER_PROGS))
+
+
+PARAM_SHAPES = [
+    # name, payload type, closure parameter pattern, a u8 expression over its bindings
+    ("ident", "u8", "x", "x"), ("wild", "u8", "_", "0"), ("mut", "u8", "mut x", "{ x += 1; x }"), ("ref", "u8", "ref x", "*x"),
+    ("tuple", "(u8, u8)", "(a, b)", "a + b"), ("struct", "P", "P { a, .. }", "a"), ("tuple-struct", "W", "W(a, b)", "a + b"),
+    ("deref", "&'static u8", "&x", "x"),
+]
+PARAM_MACROS = [
+    ("option::map!", "pub fn f(o: Option<PAY>) -> Option<u8> { konst::option::map!(o, |PAT| EXPR) }"),
+    ("option::and_then!", "pub fn f(o: Option<PAY>) -> Option<u8> { konst::option::and_then!(o, |PAT| Some(EXPR)) }"),
+    ("result::map!", "pub fn f(r: Result<PAY, ()>) -> Result<u8, ()> { konst::result::map!(r, |PAT| EXPR) }"),
+    ("result::and_then!", "pub fn f(r: Result<PAY, ()>) -> Result<u8, ()> { konst::result::and_then!(r, |PAT| Ok(EXPR)) }"),
+    ("result::map_err!", "pub fn f(r: Result<(), PAY>) -> Result<(), u8> { konst::result::map_err!(r, |PAT| EXPR) }"),
+    ("result::or_else!", "pub fn f(r: Result<u8, PAY>) -> Result<u8, ()> { konst::result::or_else!(r, |PAT| Ok(EXPR)) }"),
+    ("result::unwrap_or_else!", "pub fn f(r: Result<u8, PAY>) -> u8 { konst::result::unwrap_or_else!(r, |PAT| EXPR) }"),
+    ("result::unwrap_err_or_else!", "pub fn f(r: Result<PAY, u8>) -> u8 { konst::result::unwrap_err_or_else!(r, |PAT| EXPR) }"),
+    ("try_!/map_err", "pub fn f(r: Result<u8, PAY>) -> Result<u8, u8> { let x = konst::try_!(r, map_err = |PAT| EXPR); Ok(x) }"),
+]
+
+
+def param_programs(ctx):
+    """ACC-PARAM: the closure-taking forms accept every irrefutable parameter pattern a closure may have - the std methods they
+    mirror take any closure (`o.map(|&x| ..)`, `|mut x|`, `|ref x|`, `|(a, b)|`, `|P { a, .. }|`, `|W(a, b)|`, `|_|`); the macros
+    re-parse the closure's tokens, and a parameter matcher that is narrower than a pattern rejects valid programs"""
+    pre = "#![allow(unused)]\npub struct P { pub a: u8, pub b: u8 }\npub struct W(pub u8, pub u8);\n"
+    progs = []
+    for mname, tpl in PARAM_MACROS:
+        for sname, pay, pat, expr in PARAM_SHAPES:
+            if ctx.tier == "quick" and sname in ("wild", "tuple-struct") and mname not in ("option::map!", "result::map!"):
+                continue
+            progs.append(("%s/%s" % (mname, sname), pre + tpl.replace("PAY", pay).replace("PAT", pat).replace("EXPR", expr) + "\n"))
+    res_ = facts.compile_many(progs, ctx.th)
+    for (n, src), r in zip(progs, res_):
+        if not r["ok"]:
+            ctx.violation("ACC-PARAM", n, "a valid program is rejected: `%s`: %s" % (src.splitlines()[-1], "; ".join(e["message"][:120] for e in r["errors"][:2])),
+                          detail={"program": src})
+        ctx.instance("ACC-PARAM", n, sample={"program": src.splitlines()[-1], "accepted": r["ok"]})
+    ctx.floor("ACC-PARAM", len(progs))
 
 
 def rebind_order(ctx):
